@@ -9,19 +9,21 @@ import z3
 
 from .values import Ctx, Abort, Unsupported, Budget, SReal, SBool, SInt, zb, zr, unwrap
 from . import stubs
+from . import poly
 
 
 class Instance:
     """one bounded harness: fn(ctx) -> list of (name, obligation) ; meta = bounds etc."""
 
     def __init__(self, name, fn, bounds=None, qtimeout=20000, max_paths=200000, known=None, group=None,
-                 expect_paths=1):
+                 expect_paths=1, context_free_first=False):
         self.name, self.fn = name, fn
         self.bounds = bounds or {}
         self.qtimeout = qtimeout
         self.max_paths = max_paths
         self.group = group or name.split('/')[0]
         self.expect_paths = expect_paths
+        self.context_free_first = context_free_first
 
 
 def _model_values(ctx, m):
@@ -165,6 +167,48 @@ def explore_unit(inst, prefix, max_paths=400, max_seconds=30.0, want_witness=Fal
         for n, _ in obs:
             out['ob_names'][n] = out['ob_names'].get(n, 0) + 1
         if obs:
+            # polynomial identities (textbook-definition obligations) are closed by normalisation, without the NRA procedure
+            keep = []
+            for n_, o in obs:
+                try:
+                    if poly.is_identity(o):
+                        out['discharged'] += 1
+                        out['identities'] = out.get('identities', 0) + 1
+                        continue
+                except Exception:
+                    pass
+                keep.append((n_, o))
+            obs = keep
+            if obs and getattr(inst, 'context_free_first', False):
+                # nonlinear instances: canonical polynomial rebuild of pc and obligation in a one-shot solver (equal polynomials
+                # become one term, so linear reasoning over shared monomials closes what nlsat's case analysis does not)
+                keep = []
+                cache, atoms = {}, {}
+                try:
+                    cpc = [poly.canon(a_, cache, atoms) for a_ in ctx.solver.assertions()]
+                except Exception:
+                    cpc = None
+                for n_, o in obs:
+                    r0 = 'unknown'
+                    if cpc is not None:
+                        try:
+                            s0 = z3.Solver()
+                            s0.set('timeout', 8000)
+                            s0.add(cpc)
+                            s0.add(z3.Not(poly.canon(o, cache, atoms)))
+                            t0_ = time.time()
+                            r0 = str(s0.check())
+                            ctx.ztime += time.time() - t0_
+                            ctx.checks += 1
+                        except Exception:
+                            r0 = 'unknown'
+                    if r0 == 'unsat':
+                        out['discharged'] += 1
+                        out['canonical'] = out.get('canonical', 0) + 1
+                    else:
+                        keep.append((n_, o))
+                obs = keep
+        if obs:
             allr, _m = ctx.sat(z3.Not(z3.And(*[o for _, o in obs])))
             if allr == 'unsat':
                 out['discharged'] += len(obs)
@@ -179,8 +223,26 @@ def explore_unit(inst, prefix, max_paths=400, max_seconds=30.0, want_witness=Fal
                         out['failures'].append(dict(instance=inst.name, obligation=n, prefix=list(ctx.decisions),
                                                     values=vals, tables=tables, notes=list(ctx.notes)))
                     else:
-                        out['inconclusive'].append(dict(kind='unknown', msg='obligation %s: solver unknown' % n,
-                                                        prefix=list(ctx.decisions), where=[]))
+                        # last resort: canonical polynomial rebuild of pc and obligation (equal polynomials become one term)
+                        r2 = 'unknown'
+                        try:
+                            cache, atoms = {}, {}
+                            s2 = z3.Solver()
+                            s2.set('timeout', int(inst.qtimeout))
+                            for a_ in ctx.solver.assertions():
+                                s2.add(poly.canon(a_, cache, atoms))
+                            s2.add(z3.Not(poly.canon(o, cache, atoms)))
+                            t2 = time.time()
+                            r2 = str(s2.check())
+                            ctx.ztime += time.time() - t2
+                        except Exception:
+                            r2 = 'unknown'
+                        if r2 == 'unsat':
+                            out['discharged'] += 1
+                            out['canonical'] = out.get('canonical', 0) + 1
+                        else:
+                            out['inconclusive'].append(dict(kind='unknown', msg='obligation %s: solver unknown' % n,
+                                                            prefix=list(ctx.decisions), where=[]))
         if len(out['samples']) < 2:
             out['samples'].append(dict(instance=inst.name, decisions=''.join('T' if d else 'F' for d in ctx.decisions)[:120],
                                        path_condition_conjuncts=ctx.npc,
